@@ -27,7 +27,8 @@ def DeclaredSupplied (m : Meth) (r : Request) : Prop :=
 /-- what is established about the outcome `x` of `afterMerge` for method `m` -/
 def Verdict (m : Meth) (r : Request) (t : TypedVals) (x : Except Stop FState × Counts) : Prop :=
   (r.n ≠ 0 → t.cancel .cancel_function ≠ some true → DeclaredSupplied m r →
-      (x.1 = .error wpe ↔ ¬ SpecHolds m r.n t.num (t.bool .spe_global_strategy == false))) ∧
+      (x.1 = .error wpe ↔
+        ¬ SpecHolds m r.n (if r.hasF then r.dim else 0) t.num (t.bool .spe_global_strategy == false))) ∧
   (∀ e, x.1 = .error (.threw e) → x.2.kernel = 0 ∧ x.2.distance = 0) ∧
   (DeclaredSupplied m r → (∀ c ∈ callbacksMentioned m, r.has c = true) →
       x.1 ≠ .error (.threw (errT .unsupported_method_error))) ∧
@@ -38,11 +39,12 @@ def Verdict (m : Meth) (r : Request) (t : TypedVals) (x : Except Stop FState × 
 macro "front_simp" "[" ts:Lean.Parser.Tactic.simpLemma,* "]" : tactic =>
   `(tactic| simp [afterMerge, frontSteps, runSteps, runStep, findDispatch, dispatch, runDispatchSteps, validate, runChecks,
     embedBody, runStmts, runStmt, runEvs, runEv, runBlock, isLit, useCb, TypedVals.get, TypedVals.val, Kw.ty,
-    convert, Val.ty, runCheck, Val.num?, Pred.ty, Pred.holds, BExpr.eval, BExpr.isInt, Request.has, Meth.traits, Traits.needs,
+    convert, Val.ty, runCheck, runVStmt, readAll, bEnv, numView, Cmp.holds, Val.num?, Pred.ty, Pred.holds, Pred.params,
+    BExpr.eval, BExpr.isInt, BExpr.params, Request.has, Meth.traits, Traits.needs,
     M.ite_apply, errS, errT, Rat.intCast_natCast, $ts,*])
 
 macro "verdict_leaf" : tactic =>
-  `(tactic| simp_all [Verdict, wpe, SpecHolds, neighbourMethods, DeclaredSupplied, TypedVals.num, Kw.ty, Meth.traits,
+  `(tactic| simp_all [Verdict, wpe, SpecHolds, ListedRanges, RankConditions, neighbourMethods, DeclaredSupplied, TypedVals.num, Kw.ty, Meth.traits,
     callbacksMentioned, embedBody, stmtCallbacks, evCallbacks, blockCallbacks, Request.has, errS, errT, Counts.zero, Counts.bump,
     Rat.intCast_natCast])
 
